@@ -35,7 +35,37 @@ MANIFEST_META = dict(
 
 NOT_APPLICABLE = {}
 
+HIST_RULE = ('evaluations = generated histories (10..60 steps; steps are loop operations from outside, dispatches, sleeps; every source '
+             'carries a callback program of further operations and a return value) executed against a fresh real loop; '
+             'non-trivial = at least one callback ran and the history contains an in-callback operation or more than two dispatches; '
+             'distinct = distinct (source kinds used, in-callback operation kinds, post actions returned, batch-size class, profile) tuples')
+
+
+def hist(prop, level_text, level_note, extra_assume=(), **kw):
+    d = dict(
+        legs=[dict(name='native', bin='hist', shards=16, timeout=dict(quick=400, thorough=3600))],
+        rule=HIST_RULE,
+        assumptions=COMMON_ASSUME + list(extra_assume),
+        level_text=level_text,
+        level_note=level_note,
+        technique='runtime monitoring: generated operation histories on the real loop, online trace/ledger monitors with kernel probes (poll(2), epoll fdinfo), delta-debugged witnesses',
+    )
+    d.update(kw)
+    return d
+
+
 PROPS = {
+    'C01': hist('C01', 'TBD', 'TBD'),
+    'C02': hist('C02', 'TBD', 'TBD'),
+    'C05': hist('C05', 'TBD', 'TBD'),
+    'C06': hist('C06', 'TBD', 'TBD'),
+    'C07': hist('C07', 'TBD', 'TBD'),
+    'C08': hist('C08', 'TBD', 'TBD'),
+    'C09': hist('C09', 'TBD', 'TBD'),
+    'C13': hist('C13', 'TBD', 'TBD'),
+    'C14': hist('C14', 'TBD', 'TBD'),
+    'C15': hist('C15', 'TBD', 'TBD'),
+    'C16': hist('C16', 'TBD', 'TBD'),
     'C18': dict(
         legs=[dict(name='native', bin='trans', shards=16, timeout=dict(quick=300, thorough=3000))],
         rule='evaluations = protocol-conforming operation sequences executed against the real TransientSource '
